@@ -724,7 +724,7 @@ def run_check(pid, tier, seed):
     for f in findings:
         fid = f["id"]
         if fid in seen_findings:
-            known_lines.append("KNOWN-FINDING: property=%s %s %s" % (pid, fid, f["what"]))
+            known_lines.append("KNOWN-FINDING: property=%s %s %s" % (pid, fid, f.get("what", "")))
         else:
             stale.append(fid)
             notes.append("known finding %s did not reproduce in this run (stale entry?)" % fid)
